@@ -1,6 +1,8 @@
 import ArroyProofs.Properties.Reachable
 /-! The invariant "every stored item leaf of the index was made by `Cfg.mkLeaf`" and its preservation
-by every step of a history (`add`, `append`, `del`, `clear`, `build` — of any index). -/
+by every step of a history (`add`, `append`, `del`, `clear`, `build`, `prepare` — of any index; a metric
+change of the index itself moves the invariant from the old configuration to the new one:
+`leavesMade_prepare`, `leavesMade_foldl` for the histories after it). -/
 namespace Arroy
 open Generated
 
@@ -30,11 +32,14 @@ namespace C01
 /-- the operations of the history that write or rewrite item leaves of index `c` do so under the
     configuration `c`: items of the index are added by `c` itself (same metric, dimension, host), and
     a build on the index by a dot-product configuration (whose preprocessing rewrites headers) happens
-    only if `c` is dot-product too -/
+    only if `c` is dot-product too; a `prepare` on the index does not change the metric (a real metric
+    change re-encodes every leaf for the new configuration: see `leavesMade_prepare`, which carries the
+    invariant from the old configuration to the new one) -/
 def madeBy (c : Cfg) : Op → Prop
   | .add c' _ _ => c'.index = c.index → c' = c
   | .append c' _ _ => c'.index = c.index → c' = c
   | .build c' _ _ _ => c'.index = c.index → c'.metric = .dot → c.metric = .dot
+  | .prepare c' m' => c'.index = c.index → m' = c'.metric
   | _ => True
 
 theorem leavesMade_add {c c' : Cfg} {s s' : Store} {id : Nat} {vec : List Nat}
@@ -114,6 +119,74 @@ theorem leavesMade_step (s : Store) (op : Op) (hop : op.wf) (c : Cfg) (hi : c.in
           exact this.1.2.1
         rw [Store.get_none_of_not_wf hw' hk] at hg
         cases hg
+  | prepare c' m' =>
+    simp only [step]
+    cases h : Writer.prepareChangingDistance c' m' s with
+    | error e => exact hP
+    | ok s' =>
+      by_cases he : c'.index = c.index
+      · have hm := hq he
+        subst hm
+        rw [C18.C18_same] at h
+        cases h; exact hP
+      · intro id0 hd v hg
+        simp only at hg
+        have hinv' := hinv c' hop
+        rw [prepare_other hinv'.1.2.1 hinv'.1.1 hop hinv'.1.2.2.1 h (c.itemKey id0) (fun e => he e.symm)] at hg
+        exact hP id0 hd v hg
+
+/-- the words of a leaf made for `c` unpack to at least `c.dims` components -/
+theorem toVec_fromSlice_length (m : Metric) (xs : List Nat) : xs.length ≤ (m.toVec (m.fromSlice xs)).length := by
+  unfold Metric.toVec Metric.fromSlice
+  cases hb : m.isBq with
+  | false => simp
+  | true =>
+    simp only [if_true]
+    rw [Writer.bqUnpack_length, BQL.pack_length]
+    have : quantizedWordBits = 64 := rfl
+    rw [this]; omega
+
+/-- **a real metric change carries the invariant to the new configuration**: if every leaf of the index was
+    made for `c` (the configuration the index is opened with), after `prepare_changing_distance` towards `m'`
+    every leaf is made for `{ c with metric := m' }` — from the first `c.dims` components of the f32 view -/
+theorem leavesMade_prepare {c : Cfg} {m' : Metric} {s s' : Store} (hi : c.index < 65536)
+    (hinv : IndexInv c s) (h : Writer.prepareChangingDistance c m' s = .ok s') (hP : LeavesMade c s) :
+    LeavesMade { c with metric := m' } s' := by
+  by_cases hne : m' = c.metric
+  · subst hne
+    rw [C18.C18_same] at h
+    cases h; exact hP
+  · obtain ⟨s'', h', _, hsome, hleaf, _⟩ := C18.C18_change c m' s hne hinv.1.2.1 hinv.1.1 hi hinv.1.2.2.1
+    rw [h] at h'
+    cases h'
+    intro id0 hd v hg
+    have hk : ({ c with metric := m' } : Cfg).itemKey id0 = c.itemKey id0 := rfl
+    rw [hk] at hg
+    have hx : (Store.get s (c.itemKey id0)).isSome = true := by rw [← hsome, hg]; rfl
+    obtain ⟨hd0, v0, hg0⟩ := hinv.1.2.2.1.leaf_of_isSome hx
+    obtain ⟨xs0, hl0, hv0, _⟩ := hP id0 hd0 v0 hg0
+    rw [hleaf id0 hd0 v0 hg0] at hg
+    simp only [Cfg.mkLeaf, Option.some.injEq, Val.leaf.injEq] at hg
+    refine ⟨(c.metric.toVec v0).take c.dims, ?_, hg.2.symm, fun _ => by rw [← hg.1, ← hg.2]⟩
+    rw [List.length_take]
+    have := toVec_fromSlice_length c.metric xs0
+    rw [← hv0, hl0] at this
+    show min c.dims _ = c.dims
+    omega
+
+/-- the invariant along a history started in any state satisfying the index invariants -/
+theorem leavesMade_foldl (c : Cfg) (hi : c.index < 65536) (ops : List Op)
+    (hops : ∀ op ∈ ops, op.wf) (hq : ∀ op ∈ ops, madeBy c op) :
+    ∀ s : Store, (∀ c : Cfg, c.index < 65536 → IndexInv c s) → LeavesMade c s →
+      LeavesMade c (ops.foldl step s) := by
+  induction ops with
+  | nil => intro s _ h; exact h
+  | cons op ops ih =>
+    intro s hinv hP
+    simp only [List.foldl_cons]
+    have hop := hops op (by simp)
+    exact ih (fun op' h' => hops op' (List.mem_cons_of_mem _ h')) (fun op' h' => hq op' (List.mem_cons_of_mem _ h'))
+      _ (C01_inv_step freshSupply s op hop hinv) (leavesMade_step s op hop c hi (hq op (by simp)) hinv hP)
 
 /-- **the invariant over histories**: if the items of index `c` are always added under the
     configuration `c` and no dot-product build touches a non-dot-product index `c`, every stored leaf of
